@@ -26,9 +26,9 @@ SizeVecs == UNION {[1..n -> Sizes] : n \in 0..MaxN}
 Perms(n) == {f \in [1..n -> 0..(n - 1)] : \A i, j \in 1..n : f[i] = f[j] => i = j}
 Ident(n) == [i \in 1..n |-> i - 1]
 
-NeedsKeep == {"divide", "filter", "distribute"}
+NeedsKeep == {"divide", "filter", "distribute", "expand"}
 NeedsSize == {"rebatch", "divide", "filter", "distribute", "batchover", "pair", "fragments", "merge"}
-AnyArrival == {"limitmemory", "copytee", "fragments", "merge", "sort", "rebatch", "filterempty", "divide", "filter", "distribute", "pair", "workers", "complete"}
+AnyArrival == {"concat", "expand", "limitmemory", "copytee", "fragments", "merge", "sort", "rebatch", "filterempty", "divide", "filter", "distribute", "pair", "workers", "complete"}
 TwoStreams == {"concat", "pair"}
 
 Init ==
@@ -52,6 +52,7 @@ Compute ==
   LET inp == MkInp(c.sizes) IN
   CASE c.op = "sort"        -> SortOut(inp)
     [] c.op = "workers"     -> SortOut(inp)       \* identity worker, then SortBatches
+    [] c.op = "expand"      -> ExpandOut(inp, c.keep)    \* 1 -> 2 worker on the records of `keep`, then SortBatches
     [] c.op = "limitmemory" -> SortOut(inp)       \* pass-through (same batches, same numbers, any emission order)
     [] c.op = "copytee"     -> SortOut(inp)       \* each of the TWO outputs carries every batch once
     [] c.op = "rebatch"     -> RebatchOut(inp, c.size)
@@ -86,6 +87,7 @@ ContractHolds == phase = "done" => \A s \in Streams : OrderContract(s)
 NothingLostOrAdded == phase = "done" =>
   LET inp == MkInp(c.sizes) IN
   CASE c.op \in {"sort", "workers", "limitmemory", "copytee", "rebatch", "filterempty", "batchover", "complete"} -> Records(out) = Flat(inp)
+    [] c.op = "expand" -> SelectSeq(Records(out), LAMBDA r : r < 1000) = Flat(inp)
     [] c.op = "fragments" -> \A r \in {Flat(inp)[i] : i \in 1..Len(Flat(inp))} :
                                  FragsCover(SelectSeq(Records(out), LAMBDA f : f[1] = r), FragLens[r])
     [] c.op = "merge" -> LET RECURSIVE Sum(_) Sum(q) == IF q = <<>> THEN 0 ELSE Head(q) + Sum(Tail(q))
